@@ -8,7 +8,7 @@ import time
 
 sys.path.insert(0, os.path.dirname(os.path.abspath(__file__)))
 import vlib
-from engines import hs_server, hs_client, tcp_stream, codec, pending, srvlife, mux, chan
+from engines import hs_server, hs_client, tcp_stream, codec, pending, srvlife, mux, chan, clientlife
 
 # property -> list of (engine module, operator prefixes that decide it)
 PROPS = {
@@ -28,11 +28,17 @@ PROPS = {
     "C12": [(tcp_stream.C12, ["C12_"])],
     "C17": [(chan.C17, ["C17_", "C13_NoCrash"])],
     "C18": [(srvlife, ["C18_"])],
+    "C19": [(clientlife, ["C19_"])],
     "C20": [(mux, ["C20_"])],
     "C16": [(tcp_stream.C16, ["C16_"])],
 }
 
 ASSUME = {
+    "client-life": [
+        "TLC checks ClientLife exhaustively (7 fault kinds, up to 2-4 faults) including the liveness property Recovers under weak fairness of the listener's steps",
+        "the scripted server accepts throughout the 3 s observation window (reachable server); a listener is said to spin above 1000 iterations per second; TCP transport with a 4 KiB read limit",
+        "TLC, CommunityModules Json and the Go runtime are trusted",
+    ],
     "channel": [
         "TLC checks the Channel model exhaustively for 2 senders x 2 envelopes, stream buffer 1-2, wire capacity 2, with FinishSession at any moment; schedules of the real sessions are sampled (seeded perturbed free runs), not enumerated",
         "delivery is owed only for envelopes reported as sent before the barrier / before the end of the session was requested; TCP receivers notice a cancellation at their next 5 s poll, so closure is observed with 7 s bounds",
